@@ -32,6 +32,11 @@ def mirror(df_peak_of_neg):
     return d
 
 
+def copy_kw(d):
+    import copy
+    return copy.deepcopy(d)
+
+
 def evaluate(case):
     letters, devs = case[:-1], tuple(case[-1])
     o = S.resolve(devs)
@@ -79,6 +84,22 @@ def evaluate(case):
         if dd:
             return VIOL(dict(sgn, kind='mirror-edges'), 'after recompute_edges the trough-centred table is not the mirror of the '
                         'peak-centred table of -x: ' + dd, evals=nev)
+    if devs in ((), ('amp',)) and isinstance(w, str):
+        # analysis objects WITHOUT sample columns that were loaded with an earlier table before being fitted: the centring stays
+        # the one the object was configured with
+        from bycycle import Bycycle
+        kwo = S.call_kwargs(o)
+        okw = dict(burst_method=kwo['burst_method'], thresholds=kwo.get('threshold_kwargs'), burst_kwargs=kwo.get('burst_kwargs'), return_samples=False)
+        bt, bp = Bycycle(center_extrema='trough', **copy_kw(okw)), Bycycle(center_extrema='peak', **copy_kw(okw))
+        bt.load(dtn.copy(), np.array(sig, float), o['fs'], o['f_range'])
+        bp.load(dpn.copy(), -np.array(sig, float), o['fs'], o['f_range'])
+        bt.fit(np.array(sig, float), o['fs'], o['f_range'])
+        bp.fit(-np.array(sig, float), o['fs'], o['f_range'])
+        nev += 2
+        dd = diff_tables(bt.df_features, mirror(bp.df_features), exact=True) or diff_tables(bt.df_features, dtn, exact=True)
+        if dd:
+            return VIOL(dict(sgn, kind='mirror-objects', return_samples=False), 'Bycycle objects (return_samples=False) loaded, then fitted: the trough-centred '
+                        'table is not the mirror of the peak-centred table of -x (or not the functional table): ' + dd, evals=nev)
     if devs in ((), ('amp',), ('b5',), ('thr1',)) and len(sig) % 2 == 0 and len(sig) // 2 >= 16:
         # the same relation for the epoch tables of a 2-D array analysed as one recording
         import contextlib, io
